@@ -234,6 +234,42 @@ func flipBit(b []byte, off int, bit uint) []byte {
 	return o
 }
 
+// c07compressible: valid files whose blocks inflate by three orders of magnitude.
+func c07compressible(c *core.Ctx, i int) bool {
+	sch, _ := refavro.ParseSchema([]byte(`{"type":"record","name":"z","fields":[{"name":"b","type":"bytes"},{"name":"n","type":"long"}]}`))
+	type zrec struct {
+		B []byte `json:"b"`
+		N int64  `json:"n"`
+	}
+	for _, codec := range []string{"deflate", "snappy"} {
+		for k, mk := range []func() []byte{
+			func() []byte { return make([]byte, 4<<20) },
+			func() []byte { return bytes.Repeat([]byte("abc"), (8<<20)/3) },
+			func() []byte { return bytes.Repeat([]byte{0xff}, 6<<20+17) },
+		} {
+			data := mk()
+			file, err := refavro.WriteContainer([]byte(sch.JSON()), sch, [][]any{{&refavro.Record{Fields: []any{data, int64(k)}}}, {&refavro.Record{Fields: []any{[]byte("tail"), int64(99)}}}}, nil, refavro.WriteOpts{Codec: codec})
+			if err != nil {
+				c.Violate("harness", err.Error(), nil)
+				return false
+			}
+			var got []zrec
+			rerr := avro.ReadFile(bytes.NewReader(file), zrec{}, func(val unsafe.Pointer, rb *avro.ResourceBank) error {
+				r := *(*zrec)(val)
+				got = append(got, zrec{B: r.B[:len(r.B):len(r.B)], N: r.N})
+				return nil
+			})
+			c.Eval(1)
+			c.Count("compressible-big-blocks", 1)
+			if rerr != nil || len(got) != 2 || !bytes.Equal(got[0].B, data) || got[0].N != int64(k) || got[1].N != 99 {
+				c.Violate("intact-file", fmt.Sprintf("valid %s file (%d bytes) with a block that inflates to %d bytes: err=%v, %d records delivered", codec, len(file), len(data), rerr, len(got)), nil)
+				return false
+			}
+		}
+	}
+	return true
+}
+
 func runC07(c *core.Ctx, i int) {
 	cf := genContFile(c, i, i/2, 12)
 	if cf == nil {
@@ -271,6 +307,41 @@ func runC07(c *core.Ctx, i int) {
 	c.Count("files."+cf.origin, 1)
 	c.Count("files.codec."+cont.Codec, 1)
 	c.Shape(cf.desc)
+	// 0b. a read stopped by its callback, then overlapping reads: the outer read's callback reads the whole file
+	// again (a nested ReadFile); each read delivers exactly its own file's records
+	if i%4 == 1 && len(want) > 0 {
+		sentinel := fmt.Errorf("stop")
+		if o := readCollect(bytes.NewReader(cf.file), rt, 0, sentinel); o.err != sentinel || o.pan != nil {
+			c.Violate("intact-file", fmt.Sprintf("a read stopped by its callback returned %v (panic %v) instead of the callback's error [%s]", o.err, o.pan, cf.desc), nil)
+			return
+		}
+		var outer []reflect.Value
+		nestedBad := ""
+		err := avro.ReadFile(bytes.NewReader(cf.file), reflect.New(rt).Elem().Interface(), func(val unsafe.Pointer, rb *avro.ResourceBank) error {
+			v := reflect.New(rt).Elem()
+			v.Set(reflect.NewAt(rt, val).Elem())
+			outer = append(outer, v)
+			if len(outer) <= 2 {
+				in := readCollect(bytes.NewReader(cf.file), rt, -1, nil)
+				if in.err != nil || in.pan != nil || cmpVals(cf.t, want, in.vals) != "" {
+					nestedBad = fmt.Sprintf("nested read: err=%v panic=%v %s", in.err, in.pan, cmpVals(cf.t, want, in.vals))
+				}
+			}
+			return nil
+		})
+		c.Eval(1)
+		if err != nil || nestedBad != "" || cmpVals(cf.t, want, outer) != "" {
+			c.Violate("intact-file", fmt.Sprintf("overlapping reads of an intact file (after one read was stopped by its callback): outer err=%v %s; %s [%s]", err, cmpVals(cf.t, want, outer), nestedBad, cf.desc), cf.rep(cf.file, "none"))
+			return
+		}
+		c.Count("nested-reads", 1)
+	}
+	// 0c. very compressible multi-MiB blocks (deflate reaches ratios above 1000:1)
+	if i%64 == 9 {
+		if !c07compressible(c, i) {
+			return
+		}
+	}
 	// 1. magic
 	for off := 0; off < 4; off++ {
 		for bit := uint(0); bit < 8; bit++ {
